@@ -165,7 +165,7 @@ class OpsMixin:
         # incompatible kinds: fork
         return a if self.run.decide(c, "ite") else b
 
-    def under(self, cond, thunk):
+    def under(self, cond, thunk, persist=True):
         """evaluate thunk() with `cond` temporarily added to the path condition (guards partial expressions in specs);
         returns None when cond is infeasible"""
         run = self.run
@@ -178,6 +178,9 @@ class OpsMixin:
         npc = len(run.pc)
         npers = len(run.persistent)
         saved = dict(run.decided)
+        run.guard_depth += 1
+        if not persist:
+            run.nopersist += 1
         try:
             run.pc.append(c)
             run.solver.add(c)
@@ -187,7 +190,15 @@ class OpsMixin:
                 return thunk()
             except E.PathEnd:
                 return None
+            except E.PyExc:
+                # a persisted decision may have made the guard itself infeasible: then nothing is claimed under it
+                if run.check() == z3.unsat:
+                    return None
+                raise
         finally:
+            run.guard_depth -= 1
+            if not persist:
+                run.nopersist -= 1
             del run.pc[npc:]
             run.solver.pop()
             run.decided = saved
@@ -400,6 +411,11 @@ class OpsMixin:
         raise E.Unsupported(f"binop {type(op).__name__} on {a!r}, {b!r}")
 
     def any_binop(self, op, a, b):
+        if self.opt("opaque_any_methods"):
+            if self.run.choose([("ok", None), ("TypeError", None)], "opaque arithmetic"):
+                raise E.PyExc(VExc("TypeError"), "opaque arithmetic")
+            f = z3.Function(f"any_{type(op).__name__}", AnySort, AnySort, AnySort)
+            return VAny(f(self.inject(a), self.inject(b)), "pyvalue")
         raise E.Unsupported("arithmetic on opaque value")
 
     # ------------------------------------------------------------ comparisons
@@ -457,6 +473,10 @@ class OpsMixin:
             raise E.PyExc(VExc("TypeError"), "enum ordering")
         if isinstance(a, VNone) or isinstance(b, VNone):
             raise E.PyExc(VExc("TypeError"), "ordering with None")
+        if (isinstance(a, VAny) or isinstance(b, VAny)) and self.opt("opaque_any_methods"):
+            if self.run.choose([("ok", None), ("TypeError", None)], "opaque comparison"):
+                raise E.PyExc(VExc("TypeError"), "opaque comparison")
+            return z3.Function(f"any_cmp_{type(op).__name__}", AnySort, AnySort, z3.BoolSort())(self.inject(a), self.inject(b))
         if isinstance(a, VRef) and isinstance(b, VRef) and a.kind == b.kind == "set" and isinstance(op, ast.LtE):
             return self.subset(a, b)
         if isinstance(a, VTuple) and isinstance(b, VTuple) and len(a.items) == len(b.items) == 2:
